@@ -307,7 +307,6 @@ static linux_interface_ctx_t *loadInterfaces(sd_bus *bus, size_t *count) {
         interfaces[interfaceCount].session = init_automata_session();
         interfaces[interfaceCount].enumeration = init_automata_enumeration();
 
-        pthread_create(&interfaces[interfaceCount].thread, NULL, lltdLoop, &interfaces[interfaceCount]);
         log_info("NetworkManager device %s uuid=%s", ifname, uuid ? uuid : "(none)");
         interfaceCount++;
         free(ifname);
@@ -315,6 +314,12 @@ static linux_interface_ctx_t *loadInterfaces(sd_bus *bus, size_t *count) {
 
     sd_bus_message_exit_container(reply);
     sd_bus_message_unref(reply);
+
+    /* Start the per-interface threads only now: realloc() above may move the
+     * array, and each thread keeps a pointer to its element. */
+    for (size_t i = 0; i < interfaceCount; i++) {
+        pthread_create(&interfaces[i].thread, NULL, lltdLoop, &interfaces[i]);
+    }
 
     *count = interfaceCount;
     return interfaces;
